@@ -5,6 +5,8 @@ HEADER = "from Reduino import target\nfrom Reduino.Actuators import Led, RGBLed,
 FEATURES = {
     "blink": "led = Led(13)\nwhile True:\n    led.toggle()\n    sleep(500)\n",
     "promote-if": "mon = SerialMonitor(9600)\nc = 1\nif c > 0:\n    alpha = 1\n    beta = 2\n    gama = 3\n    delta = 4\nelse:\n    beta = 7\n    omega = 9\nmon.write(alpha + beta + gama + delta)\n",
+    "promote-else": "mon = SerialMonitor(9600)\nc = 1\nif c > 5:\n    first = 1\nelif c > 3:\n    second = 2\n    quebec = 4\nelse:\n    zulu = 1\n    kilo = 2\n    alpha = 3\n    mike = 4\n    hotel = 5\nmon.write(c)\n",
+    "promote-else-fn": "mon = SerialMonitor(9600)\ndef pick(c):\n    if c > 5:\n        first = 1\n    else:\n        zulu = 1\n        kilo = 2\n        alpha = 3\n        mike = 4\n    return c\nmon.write(pick(2))\n",
     "promote-loop": "mon = SerialMonitor(9600)\nc = 1\nwhile True:\n    if c > 0:\n        u1 = 1\n        u2 = 2\n        u3 = 3\n    mon.write(u1 + u2 + u3)\n",
     "promote-while": "mon = SerialMonitor(9600)\nn = 0\nwhile n < 3:\n    n += 1\n    zeta = n * 2\n    eta = n + 1\n    theta = 5\nmon.write(n)\n",
     "promote-for": "mon = SerialMonitor(9600)\nfor i in range(3):\n    k1 = i\n    k2 = i * 2\n    k3 = 1\nmon.write(3)\n",
